@@ -162,8 +162,9 @@ type Run struct {
 	// database was reopened while such a series had no data in the head (it is in neither the
 	// snapshot nor, after the snapshot's WAL offset, the replayed WAL, so its ref number is free
 	// again); SnapRefRisk is set when a series is created after that.
-	// lastRef is the ref most recently returned for each series' label set (kept across
-	// appenders and restarts, as a scrape cache would).
+	// lastRef is the ref most recently returned for each series' label set, kept across the
+	// appenders of one DB instance as a scrape cache would and forgotten at a restart (refs are
+	// in-memory ids of one instance; a restarted head may hand the number to another series).
 	lastRef            map[int]storage.SeriesRef
 	createdThisSession map[int]bool
 	ghostAtReopen      bool
@@ -750,6 +751,7 @@ func (r *Run) exec(op Op) error {
 			}
 		}
 		r.createdThisSession = map[int]bool{}
+		r.lastRef = map[int]storage.SeriesRef{} // series refs are in-memory ids of one DB instance
 		r.noteHeadDeleted(2, 3)
 		for s, st := range r.dupStage {
 			if st == 1 || st == 3 {
@@ -807,6 +809,7 @@ func (r *Run) exec(op Op) error {
 		amv, _ := r.DB.Head().AppendableMinValidTime()
 		r.Trace = append(r.Trace, fmt.Sprintf("tsdb.Open; head min=%d max=%d appendableMinValid=%d; blocks %s", r.DB.Head().MinTime(), r.DB.Head().MaxTime(), amv, r.blocksString()))
 		r.createdThisSession = map[int]bool{}
+		r.lastRef = map[int]storage.SeriesRef{} // series refs are in-memory ids of one DB instance
 		r.noteHeadDeleted(2, 3)
 		for s, st := range r.dupStage {
 			if st == 1 || st == 3 {
@@ -972,6 +975,7 @@ func (r *Run) AdoptCrashed(dir string, inflight *Op) error {
 	amv, _ := r.DB.Head().AppendableMinValidTime()
 	r.Trace = append(r.Trace, fmt.Sprintf("tsdb.Open; head min=%d max=%d appendableMinValid=%d; blocks %s", r.DB.Head().MinTime(), r.DB.Head().MaxTime(), amv, r.blocksString()))
 	r.createdThisSession = map[int]bool{}
+	r.lastRef = map[int]storage.SeriesRef{}
 	r.noteHeadDeleted(2, 3)
 	for s, st := range r.dupStage {
 		if st == 1 || st == 3 {
